@@ -1808,6 +1808,8 @@ class SpaceUpdater(SharedSpaceOperations):
             if conflict:
                 raise NameError("name conflict: %s" % conflict)
 
+        self._check_relative_refs(node)
+
         for v in self._graph.ordered_subs(node):    # node comes first
             self._instructions.append(
                 Instruction(self._update_derived_space, (v,)))
@@ -1815,6 +1817,27 @@ class SpaceUpdater(SharedSpaceOperations):
 
         self._execute_or_restore(node)
         self._update_manager()
+
+    def _check_relative_refs(self, node):
+        """Check relative references can be derived by ``node`` and its subs
+
+        Raises before anything is derived, so that nothing has to be undone.
+        """
+        for desc in self._graph.ordered_subs(node):
+            names = set()
+            for i, sname in enumerate(self._graph.get_mro(desc)):
+                for name, ref in self._graph.to_space(sname).own_refs.items():
+                    if ref.is_derived() or name in names:
+                        continue
+                    names.add(name)
+                    if (i and ref.refmode == "relative"
+                            and ref.has_interface()
+                            and not self._graph.get_relative(
+                                desc, sname, ref.interface._impl.idstr)):
+                        raise ValueError(
+                            "Relative reference %s.%s out of scope" %
+                            (self._graph.to_space(desc).get_fullname(), name)
+                        )
 
     def _execute_or_restore(self, node):
         """Execute instructions. If it fails, derive again by the old graph"""
